@@ -1,9 +1,11 @@
 # -*- coding: utf-8 -*-
 #
 import datetime
+from decimal import Decimal
 from typing import List
 
 import rdflib
+from rdflib.namespace import XSD
 
 from .consts import RDF_first, RDFS_Resource
 from .stringify import stringify_node
@@ -176,7 +178,33 @@ def compare_blank_node(graph1: rdflib.Graph, bnode1, graph2: rdflib.Graph, bnode
     return return_eq(bnode1_eq)
 
 
+def _literal_order_kind(lit):
+    """
+    The operand category of a literal for the SPARQL 1.1 order operators (<, <=, >, >=).
+    Only literals of the same category can be ordered; None means the literal cannot be ordered at all.
+    """
+    value = lit.value
+    if value is None or lit.ill_typed:
+        return None
+    if isinstance(value, bool):
+        return "boolean"
+    if isinstance(value, (int, float, Decimal)):
+        return "numeric"
+    if isinstance(value, datetime.datetime):
+        return "dateTime"
+    if isinstance(value, str):
+        if lit.language:
+            return "langString"
+        if lit.datatype is None or lit.datatype == XSD.string:
+            return "string"
+    return lit.datatype
+
+
 def compare_literal(l1, l2):
+    kind1 = _literal_order_kind(l1)
+    if kind1 is None or kind1 != _literal_order_kind(l2):
+        # rdflib falls back to ordering incomparable literals by their datatype IRI
+        raise TypeError("Literals {} and {} cannot be compared.".format(repr(l1), repr(l2)))
     if l1.eq(l2):
         return 0
     # If we are not equal, but didn't get TypeError not NotImplementedError
@@ -196,6 +224,8 @@ def order_graph_literal(graph1: rdflib.Graph, lit1: rdflib.Literal, graph2: rdfl
         raise RuntimeError("Comparing ordered literals, graph1 and graph2 must must be RDFLib Graphs")
     if not isinstance(lit1, rdflib.Literal) or not isinstance(lit2, rdflib.Literal):
         raise RuntimeError("Comparing ordered literals, lit1 and lit2 must must be RDFLib Literals")
+    if lit1 == lit2:
+        return 0  # the same RDF term, even when it has no place in the value order
     try:
         order = compare_literal(lit1, lit2)
     except (TypeError, NotImplementedError):
